@@ -348,9 +348,9 @@ def run(ctx) -> None:
         t = tests[0]
         negated = isinstance(t.ast, ast.UnaryOp) and isinstance(t.ast.op, ast.Not)
         fail_side = [dd for dd, lab in t.succ if lab == ("t" if negated else "f")]
-        region = dcfg.reach(fail_side, avoid=[t.id])
-        first = dcfg.nodes[fail_side[0]] if fail_side else None
-        raises_te = first is not None and first.kind == "stmt" and isinstance(first.ast, ast.Raise) and first.ast.exc is not None and "TypeError" in ast.unparse(first.ast.exc)
+        region = dcfg.reach(fail_side, avoid=[t.id], edge_ok=lambda s_, d_, lab: lab not in ("e", "h"))
+        fail_raises = [dcfg.nodes[i] for i in region if dcfg.nodes[i].kind == "stmt" and isinstance(dcfg.nodes[i].ast, ast.Raise)]
+        raises_te = bool(fail_raises) and all(r.ast.exc is not None and "TypeError" in ast.unparse(r.ast.exc) for r in fail_raises) and dcfg.exit not in region and not any(call_name(cl) == "send_nowait" for i in region for cl, _ in a.node_calls(d, dcfg, dcfg.nodes[i]))
         rep.check("C11.R5", raises_te, d, t.ast, "a wrong event class raises TypeError", "the failing event-class test does not raise TypeError")
         stamp_and_send = [n for n, m in a.func_mutations(d)] + [n for n in dcfg.live_nodes() if any(call_name(cl) == "send_nowait" for cl, _ in a.node_calls(d, dcfg, n))]
         rep.check("C11.R5", bool(stamp_and_send) and all(dcfg.dominates(t.id, s.id) for s in stamp_and_send), d, t.ast, "the class check dominates stamping and delivery", "stamping or delivery is reachable without the event class check")
